@@ -312,6 +312,27 @@ def cxx_build(pid, name, sources, flags=(), libs=(), timeout=1800):
     return out
 
 
+RT_FLAGS = ["-O1", "-g", "-DNDEBUG", "-D__TBB_BUILD", "-fPIC", "-D__TBB_GNU_ASM_VERSION=2040", "-mrtm", "-mwaitpkg", "-fwrapv",
+            "-fno-strict-overflow"]
+
+
+def shim_runtime_objects(extra_flags=(), timeout=1800):
+    """The whole of /repo/src/tbb/*.cpp compiled with the E-SHIM prelude (every atomic access, fence, pause, yield,
+    futex call, std::mutex, pthread_create/join, steady_clock and RDTSC of libtbb becomes controlled), as a list of
+    object files to pass in `libs` of cxx_build (add "-ldl").  Objects are cached per translation unit by content
+    hash of all dependencies, so an edit anywhere in /repo/src/tbb or /repo/include is picked up."""
+    from concurrent.futures import ThreadPoolExecutor
+    outdir = os.path.join(BUILD, "shimrt")
+    os.makedirs(outdir, exist_ok=True)
+    srcdir = os.path.join(REPO, "src", "tbb")
+    srcs = sorted(os.path.join(srcdir, f) for f in os.listdir(srcdir) if f.endswith(".cpp"))
+    flags = RT_FLAGS + list(extra_flags) + SHIM_FLAGS
+    with LeanLock():   # one builder at a time (the objects are shared by several properties)
+        with ThreadPoolExecutor(max_workers=NCPU) as ex:
+            res = list(ex.map(lambda s_: _cxx_object(outdir, s_, flags, timeout), srcs))
+    return [o for o, _ in res]
+
+
 def find_tbb_lib():
     """Directory of /repo's built libtbb (rebuilt from the current tree by ensure_repo_built)."""
     b = os.path.join(REPO, "_build")
